@@ -378,6 +378,12 @@ class Interp:
         return out
 
     def dkey(self, v):
+        if isinstance(v, Inst) and v.cls is not None:
+            # user-defined __hash__ decides dictionary identity (its agreement with __eq__ is a separate obligation, C01.D6/C13.D5)
+            c, m = self.prog.find_method(v.cls, '__hash__')
+            if m is not None:
+                h = self.invoke(FuncRef(m, c.module, c), [v], {})
+                return ('hashed', v.cls.name, repr(self.vkey(h)))
         if isinstance(v, K):
             try:
                 hash(v.v)
@@ -1093,6 +1099,17 @@ class Interp:
     def summary(self, f, args, kw):
         """call summaries: pure functions proven elsewhere are not inlined on symbolic input"""
         q = f.qual
+        if q == 'crypto.crc.crc32c' and args and isinstance(args[0], K) and isinstance(args[0].v, (bytes, bytearray)) \
+                and getattr(self, 'FAST_CRC', True) and len(args[0].v) > 64:
+            # long concrete input: the checker's own CRC-32C (C18 proves the package's crc32c equal to it)
+            from .bocspec import crc32c_fast
+            order = args[1] if len(args) > 1 else kw.get('byteorder')
+            if order is None:
+                d = f.node.args.defaults
+                order = self.ev(d[-1], Frame(f.module)) if d else K('little')
+            if isinstance(order, K) and order.v in ('little', 'big'):
+                r = crc32c_fast(bytes(args[0].v))
+                return K(r if order.v == 'little' else r[::-1])
         if q in ('crypto.crc.crc32c', 'crypto.crc.crc16') and args and not (isinstance(args[0], K)):
             if q.endswith('crc16'):
                 return Term('crc', K('crc16'), args[0], K(2))
